@@ -80,7 +80,7 @@ def run(unit, only=None, timeout=1500):
         if only:
             cmd[cmd.index("verif_witness")] = "verif_witness::" + only
         try:
-            p = subprocess.run(cmd, cwd=ws, env=env, stdout=subprocess.PIPE, stderr=subprocess.STDOUT, text=True, timeout=timeout)
+            p = subprocess.run(cmd, cwd=ws, env=env, stdin=subprocess.DEVNULL, stdout=subprocess.PIPE, stderr=subprocess.STDOUT, text=True, timeout=timeout)
             out = p.stdout
         except subprocess.TimeoutExpired as e:
             out = (e.stdout.decode() if isinstance(e.stdout, bytes) else (e.stdout or "")) + "\nTIMEOUT"
